@@ -62,6 +62,14 @@ def gen_stop_family(rng, count):
                 ops.insert(rng.randint(0, len(ops)), "stop")
                 ops.append("stop")
             clients.append(ops)
+        # cancelled parties that call back into the pool ('r'); only while every submission fits into the first node of the
+        # std::deque (7 closures), so that the destruction order of the swapped-out queue is the submission order
+        total = sum(1 + (o.split(":")[1].count("f") + o.split(":")[1].count("d") if ":" in o else 0) for ops in clients for o in ops if o != "stop")
+        if total <= 7 and rng.random() < 0.6:
+            for ops in clients:
+                for k, o in enumerate(ops):
+                    if o != "stop" and o.split(":")[0] in ("co", "fn", "det", "ra") and rng.random() < 0.6:
+                        ops[k] = o + ("r" if ":" in o else ":r")
         n = nw + nc
         cases.append(make_case(nw, clients, random_sched(rng, n, rng.choice([0, 10, 30, 60, 100, 140]))))
     return cases
@@ -109,6 +117,50 @@ def gen_idle_family(rng, count):
     return cases
 
 
+def gen_dependent_family(rng, count):
+    """a job that blocks until a job submitted right after it has run (A waits for B's completion): 2..3 workers, at most
+    nw-1 waiting jobs, so with a correct pool B always finds a free worker; dependent pairs are submitted back-to-back.
+    Half of the schedules let all workers reach the condition wait first and then run the client in one burst."""
+    cases = []
+    for _ in range(count):
+        nw = rng.randint(2, 3)
+        nc = rng.randint(1, 2)
+        flag = 0
+        waiters = 0
+        clients = []
+        for ci in range(nc):
+            ops = []
+            if rng.random() < 0.3:
+                ops.append(rand_submit(rng, False, bare=0.0))
+            while True:
+                if waiters >= nw - 1 or (ops and rng.random() < 0.4):
+                    break
+                chain = 2 if (waiters + 2 <= nw - 1 and rng.random() < 0.3) else 1
+                ka = rng.choice(["fn", "det", "co", "ra"])
+                if chain == 1:
+                    ops += ["%s:w%d" % (ka, flag), "%s:e%d" % (rng.choice(["fn", "det", "co", "ra"]), flag)]
+                    flag += 1
+                    waiters += 1
+                else:
+                    ops += ["%s:w%d" % (ka, flag), "%s:w%de%d" % (rng.choice(["fn", "det", "co"]), flag + 1, flag),
+                            "%s:e%d" % (rng.choice(["fn", "det"]), flag + 1)]
+                    flag += 2
+                    waiters += 2
+            if rng.random() < 0.3:
+                ops.append(rand_submit(rng, False, bare=0.0))
+            clients.append(ops)
+        if rng.random() < 0.15:
+            clients[0].append("stop")
+        n = nw + nc
+        if rng.random() < 0.5:
+            sched = [w for w in range(nw) for _ in range(2)] + [t for t in range(nw, n) for _ in range(2 * len(clients[t - nw]) + 1)]
+            sched += random_sched(rng, n, rng.choice([0, 0, 20]))
+        else:
+            sched = random_sched(rng, n, rng.choice([10, 30, 60, 100]))
+        cases.append(make_case(nw, clients, sched))
+    return cases
+
+
 def gen_exhaustive(shapes, length):
     """every schedule prefix of `length` entries over the scenario's threads"""
     cases = []
@@ -126,7 +178,7 @@ EXH_SHAPES_2T = [
 ]
 EXH_SHAPES_3T = [
     (2, [["co", "fn", "stop"]]), (1, [["co", "fn"], ["stop"]]), (2, [["det:s", "det:s"]]), (1, [["stop"], ["stop", "co"]]),
-    (2, [["det:f", "destroy"]]), (2, [["fn", "co:D"]]), (2, [["det", "det:x"]]), (1, [["fn:s"], ["stop"]]),
+    (2, [["det:w0", "co:e0"]]), (2, [["fn:w0", "det:e0"]]), (2, [["det:f", "destroy"]]), (2, [["fn", "co:D"]]), (2, [["det", "det:x"]]), (1, [["fn:s"], ["stop"]]),
 ]
 
 
@@ -135,7 +187,7 @@ def parse(case, out):
     nw = int(hdr[3])
     nc = sum(1 for l in case["lines"] if l.split()[0] == "c")
     info = {"nw": nw, "nt": nw + nc, "jobs": {}, "events": [], "quiescent": False, "crash": None, "assert": None,
-            "threads": None, "final": {}, "pool": None, "fin": set(), "ops": []}
+            "threads": None, "final": {}, "pool": None, "fin": set(), "ops": [], "last": {}}
     for idx, l in enumerate(out):
         w = l.split()
         if not w:
@@ -170,6 +222,7 @@ def parse(case, out):
             info["assert"] = l
         elif w[0] == "s":
             info["ops"].append(l)
+            info["last"][int(w[1])] = w[2:]
             if w[2] == "fin":
                 info["events"].append(("fin", int(w[1]), idx))
     return info
@@ -188,8 +241,10 @@ class PoolSuite(Suite):
     def gen_cases(self, rng, tier):
         if tier == "quick":
             return (gen_stop_family(rng, 3000) + gen_destroy_client(rng, 800) + gen_destroy_job(rng, 800) + gen_idle_family(rng, 600)
+                    + gen_dependent_family(rng, 800)
                     + gen_exhaustive(EXH_SHAPES_2T[:4], 8))
         return (gen_stop_family(rng, 60000) + gen_destroy_client(rng, 14000) + gen_destroy_job(rng, 14000) + gen_idle_family(rng, 8000)
+                + gen_dependent_family(rng, 12000)
                 + gen_exhaustive(EXH_SHAPES_2T, 12) + gen_exhaustive(EXH_SHAPES_3T, 8))
 
     def normalize(self, lines):
@@ -247,15 +302,41 @@ class PoolSuite(Suite):
                 msgs.append("twice: the future of job j%d delivered its value %d times" % (j, len(jb["values"])))
             if jb["values"] and not jb["runs"]:
                 msgs.append("value: the future of job j%d has a value but the job never ran" % j)
-        # 2. stop()/destructor terminate; the first stop joins every other worker
+        # 2. stop()/destructor terminate; the first stop joins every other worker; no job is stranded while a worker idles.
+        #    A thread blocked in a user-level wait (`flag-block`: a job waiting for another job) is the program's business;
+        #    everything else that is blocked at the end of the run must be explained by it.
+        user_wait = False
         if i["quiescent"]:
-            if begins:
-                blocked = sorted(t for t, s in (i["threads"] or {}).items() if s != "F")
-                msgs.append("deadlock: stop()/destructor did not terminate, threads %s are blocked" % blocked)
-                return msgs
             th = i["threads"] or {}
-            if any(th.get(t) != "F" for t in range(nw, i["nt"])):
-                msgs.append("deadlock: a client thread is blocked although nobody stopped the pool")
+            blocked = sorted(t for t, s in th.items() if s != "F")
+            why = {t: (i["last"].get(t) or ["?"]) for t in blocked}
+            user_wait = any(why[t][0] == "flag-block" for t in blocked)
+            queued = int(i["pool"].get("queue", 0)) if isinstance(i["pool"], dict) else 0
+            sleepers = [t for t in blocked if why[t][0] == "cv-block"]
+            bad = []
+            for t in blocked:
+                op = why[t]
+                if op[0] == "flag-block":
+                    continue
+                if op[0] == "cv-block":
+                    if begins:
+                        bad.append(t)
+                    continue
+                if op[0] == "join-block":
+                    u = int(op[1][1:])
+                    if why.get(u, ["?"])[0] == "flag-block":
+                        continue
+                bad.append(t)
+            if bad and begins:
+                msgs.append("deadlock: stop()/destructor did not terminate, threads %s are blocked (%s)" % (
+                    blocked, ", ".join("t%d:%s" % (t, " ".join(why[t])) for t in blocked)))
+                return msgs
+            if bad:
+                msgs.append("deadlock: threads %s are blocked although nobody stopped the pool (%s)" % (
+                    bad, ", ".join("t%d:%s" % (t, " ".join(why[t])) for t in bad)))
+            if not begins and queued > 0 and sleepers:
+                msgs.append("forgotten-idle: %d submission(s) sit in the queue while worker(s) %s sleep in the condition wait "
+                            "(lost wake-up; a job waiting for them hangs)" % (queued, sleepers))
         open_stops = {}
         finished = set()
         for k, t, idx in i["events"]:
@@ -278,7 +359,9 @@ class PoolSuite(Suite):
             kd = jb["kind"]
             fate = len(jb["runs"]) + len(jb["cancels"])
             fin = i["final"].get(j, {})
-            if fate == 0:
+            if user_wait and fate == 0:
+                pass        # the program dead-locked itself (a job waits for a job that cannot run); stranded jobs are checked above
+            elif fate == 0:
                 if not begins:
                     msgs.append("forgotten-idle: job j%d (%s) never ran although the pool was never stopped (lost wake-up)" % (j, kd))
                 else:
@@ -287,7 +370,7 @@ class PoolSuite(Suite):
                         kd, j, kd, how, "; its future stays pending" if fin.get("fut") == "pending" else ""))
             elif not begins and not jb["runs"]:
                 msgs.append("forgotten-idle: job j%d (%s) did not run" % (j, kd))
-            if kd in ("fn", "ra") and fate == 1:
+            if kd in ("fn", "ra") and fate == 1 and not (user_wait and fin.get("fut") == "pending"):
                 want = "value" if jb["runs"] else "broken"
                 if fin.get("fut") != want:
                     msgs.append("future: job j%d (%s) %s but its future is %s" % (j, kd, "ran" if jb["runs"] else "was cancelled", fin.get("fut")))
@@ -306,7 +389,8 @@ class PoolSuite(Suite):
     def stats(self, cases, outs):
         st = {"workers": {}, "clients": {}, "kinds": {}, "fates": {}, "rejected": 0, "swapped_out": 0, "client_stops": 0,
               "job_stops": 0, "self_detach": 0, "concurrent_stops": 0, "destroy_by_client": 0, "destroy_by_job": 0,
-              "destroy_by_closure_dtor": 0, "idle_ends": 0, "deadlocks": 0, "nested_submissions": 0, "cv_blocks": 0, "join_blocks": 0}
+              "destroy_by_closure_dtor": 0, "idle_ends": 0, "deadlocks": 0, "nested_submissions": 0, "cv_blocks": 0, "join_blocks": 0, "user_waits_blocked": 0,
+              "user_deadlock_ends": 0, "dependent_pairs": 0}
         for c in cases:
             o = outs.get(str(c["id"]), [])
             try:
@@ -345,6 +429,10 @@ class PoolSuite(Suite):
                 st["idle_ends" if not begins else "deadlocks"] += 1
             st["cv_blocks"] += sum(1 for l in i["ops"] if "cv-block" in l)
             st["join_blocks"] += sum(1 for l in i["ops"] if "join-block" in l)
+            st["user_waits_blocked"] += sum(1 for l in i["ops"] if "flag-block" in l)
+            st["dependent_pairs"] += sum(1 for l in c["lines"] if l.startswith("c ") for w in l.split()[1:] if ":" in w and "w" in w.split(":")[1])
+            if i["quiescent"] and any((i["last"].get(t) or ["?"])[0] == "flag-block" for t, s_ in (i["threads"] or {}).items() if s_ != "F"):
+                st["user_deadlock_ends"] += 1
         return st
 
 
@@ -357,7 +445,7 @@ class C11(Spec):
                   "destruction; any number of workers and clients, arbitrary scripts of submissions of every kind, stop() and destruction from clients and from "
                   "jobs, every schedule and every choice of the notified waiter): every closure is invoked once on a worker or destroyed once, a destroyed closure "
                   "cancels observably (coroutine resumed with the exception / future broken), nothing is pending at quiescence, stop() terminates for every timing "
-                  "including self-stop and concurrent stops, a self-detached worker never touches the pool again. The model (including which worker takes which job) "
+                  "including self-stop and concurrent stops, a self-detached worker never touches the pool again, no submission is queued while a worker sleeps in the condition wait (also when jobs block waiting for other jobs). The model (including which worker takes which job) "
                   "is tied to thread_pool.h by replaying generated and exhaustively enumerated schedules on the unmodified header and diffing every line.")
     level_note = ("trusted: Lean kernel; hand-written model lean/CoclsModel/ThreadPool.lean; baton shim (std::mutex/condition_variable/thread interposed, FIFO "
                   "notify_one, no spurious wake-ups; the theorems allow any waiter to be notified); std::atomic is left real in this harness (future/promise internals "
@@ -367,7 +455,9 @@ class C11(Spec):
     assumptions = ["the pool has at least one worker", "the pool is not destroyed while another thread is inside one of its methods (including a stop() running in a job)",
                    "condition variable without spurious wake-ups",
                    "_queue/_exit/_threads are only accessed inside critical sections on _mx (C03's lock table), so a critical section is one atomic step",
-                   "job bodies / cancelled coroutines of the harness do nothing but stop(), nested run()/run_detached(), deleting the pool"]
+                   "job bodies of the harness do nothing but stop(), nested run()/run_detached(), deleting the pool, waiting for / signalling an event; a cancelled party at most calls is_stopped()",
+                   "quiescence theorems (outcome, futures, termination) assume no thread is blocked in a wait of the program itself (a job waiting for a job that can never run); "
+                   "c11_no_stranded_job / c11_stop_blocked_only_by_user_waits say what holds without that assumption"]
 
     def suites(self):
         return [PoolSuite()]
